@@ -384,6 +384,30 @@ def P_lockstep(ctx, lib, b, paths):
             # (what happens after a None proposal is not an obligation: the property's heuristics always propose a statement, and the built-in ones are asked
             # only when an undecided statement exists - that arm is dead code under the property's premises)
     ctx.floor(rule, "choice paths", n_choice, 1)
+    # the heuristic is consulted only for an interpretation that is not two-valued: the request flag starts false and is raised only on a path that tested
+    # is_two_valued(cur) = false in a round without update (asked at a two-valued interpretation a conforming heuristic has nothing to propose, and the
+    # None answer is taken for a dead end: a model that needs no branching would never be delivered)
+    req = set()
+    for p in paths:
+        prev = None
+        for e, v in p.cond:
+            es = deep_strip(e)
+            if es[0] == "app" and es[1] == "discr" and is_call(deep_strip(es[2][0]), "Fn::call") and deep_strip(deep_strip(es[2][0])[2][0]) == ("sym", "arg3") and prev is not None:
+                pe, pv = prev
+                if pe[0] == "loopvar" and int_of(pv) == 1:
+                    req.add((pe[2], pe[3] if len(pe) > 3 else None))
+            prev = (es, v)
+    if len(req) != 1:
+        ctx.cannot(rule, "choice-request-flag", "one loop-carried flag guarding the heuristic call", b.where(), sorted(map(str, req)))
+    else:
+        L, init = next(iter(req))
+        ctx.ob(rule, "choice-request-starts-false", init == symx.vbool(False), where=b.where(), expected="no choice is requested before the first round has examined the initial interpretation", found=symx.show(init) if init else None)
+        for p in paths:
+            if p.end != "backedge" or p.locals.get(L) != symx.vbool(True):
+                continue
+            two = [(deep_strip(e), v) for e, v in p.cond if is_call(deep_strip(e), "Adf::is_two_valued")]
+            ctx.ob(rule, "choice-requested-only-when-undecided", len(two) == 1 and int_of(two[0][1]) == 0, where=b.where(), expected="choice = true only after is_two_valued(cur) = false",
+                   found=p.describe()[:200])
     # pop loop: flagged entry => history pop + leave pop loop
     n_pop = 0
     for p in paths:
